@@ -93,6 +93,8 @@ type AlertManager struct {
 
 // Spec is a whole configuration.
 type Spec struct {
+	// GlobalForm: "" (a global section with the settings below), "omitted" (no global section), "empty" (global: {})
+	GlobalForm     string
 	Interval       string
 	Timeout        string
 	EvalInterval   string
@@ -520,6 +522,13 @@ func Render(s *Spec, st Style) string {
 	if st.Comments {
 		w.sb.WriteString("# generated configuration\n---\n")
 	}
+	if s.GlobalForm == "omitted" {
+		goto afterGlobal
+	}
+	if s.GlobalForm == "empty" {
+		w.line(0, "global: {}")
+		goto afterGlobal
+	}
 	w.line(0, "global:")
 	if s.Interval != "" {
 		w.line(1, "scrape_interval: %s", s.Interval)
@@ -539,6 +548,7 @@ func Render(s *Spec, st Style) string {
 	if s.Interval == "" && s.Timeout == "" && s.EvalInterval == "" && len(s.ExternalLabels) == 0 {
 		w.line(1, "scrape_interval: 1m")
 	}
+afterGlobal:
 	if len(s.RuleFiles) > 0 {
 		w.strList(0, "rule_files", s.RuleFiles)
 	}
